@@ -150,6 +150,46 @@ def polytope_eq(ctx):
             ctx.ensure("equal-to-reversed-rescaled", bool(P == Qr))
 
 
+def _cycle_matchings(n):
+    out = []
+    for r in range(n):
+        out.append([(i + r) % n for i in range(n)])
+        out.append([(r - i) % n for i in range(n)])
+    return out
+
+
+@case("C17", "polytope.eq.iff", names("p", 4, 3) + names("q", 4, 3), mode="field", functions=["geometer.shapes.PolytopeTensor.__eq__"],
+      timeout=120, max_paths=200, explore_time=600)
+def polytope_eq_iff(ctx):
+    """two arbitrary quadrilaterals: == exactly when the vertex cycles match up to rotation / reversal (both directions)"""
+    geometer, gs = _g()
+    P, Q = ctx.arr("p", 4, 3), ctx.arr("q", 4, 3)
+    for i in range(4):
+        ctx.assume(ctx.neg(ctx.all_zero(P[i])))
+        ctx.assume(ctx.neg(ctx.all_zero(Q[i])))
+    with ctx.stubs():
+        r = gs.Polygon(np.array(P)) == gs.Polygon(np.array(Q))
+    spec = ctx.disj([ctx.conj([ctx.minors_zero(P[i], Q[m[i]]) for i in range(4)]) for m in _cycle_matchings(4)])
+    ctx.ensure("==<=>same-vertex-cycle-up-to-rotation/reversal", ctx.iff(bool(r), spec))
+
+
+@case("C17", "polytope.eq.collection", names("p", 2, 3, 3) + names("q", 2, 3, 3), mode="field", functions=["geometer.shapes.PolytopeTensor.__eq__"],
+      timeout=120, max_paths=200, explore_time=600)
+def polytope_eq_collection(ctx):
+    """collections of two triangles (the vertex axis is not axis 0): == exactly when ONE rotation / reversal of the vertex axis matches every element;
+    in particular swapping the elements of the collection is not a reversal"""
+    geometer, gs = _g()
+    P, Q = ctx.arr("p", 2, 3, 3), ctx.arr("q", 2, 3, 3)
+    for k in range(2):
+        for i in range(3):
+            ctx.assume(ctx.neg(ctx.all_zero(P[k][i])))
+            ctx.assume(ctx.neg(ctx.all_zero(Q[k][i])))
+    with ctx.stubs():
+        r = gs.PolygonCollection(np.array(P)) == gs.PolygonCollection(np.array(Q))
+    spec = ctx.disj([ctx.conj([ctx.minors_zero(P[k][i], Q[k][m[i]]) for k in range(2) for i in range(3)]) for m in _cycle_matchings(3)])
+    ctx.ensure("collection:==<=>one-rotation/reversal-matches-every-element", ctx.iff(bool(r), spec))
+
+
 # ------------------------------------------------------------------------------------------------ bounded
 
 
@@ -348,7 +388,8 @@ def intersections_lattice(ctx):
                 ctx.ensure("2d:transversal-through-the-interior-yields-two-points", len(pts) == 2, witness=w)
             ctx.ensure("2d:no-duplicates", all(not (pts[i] == pts[j]) for i in range(len(pts)) for j in range(i)), witness=w)
     cube = Cuboid(g.Point(0, 0, 0), g.Point(2, 0, 0), g.Point(0, 2, 0), g.Point(0, 0, 2))
-    lat = [(-1, -1, -1), (1, 1, 1), (3, 1, 1), (1, 0.5, 3), (0.5, 0.5, 0.5), (-1, 1, 1), (1, -1, 0.5), (3, 3, 3), (1, 1, -1), (-1, 0.5, 1.5)]
+    lat = [(-1, -1, -1), (1, 1, 1), (3, 1, 1), (1, 0.5, 3), (0.5, 0.5, 0.5), (-1, 1, 1), (1, -1, 0.5), (3, 3, 3), (1, 1, -1), (-1, 0.5, 1.5),
+           (-1, 1, 0), (1, -1, 0), (0, 0, -1), (0, 0, 3), (-1, -1, 1), (3, 3, 1)]  # the last six give lines through vertices/edges and in face planes
     for p, q in itertools.combinations(lat, 2):
         L = g.Line(g.Point(*p), g.Point(*q))
         pts = cube.intersect(L)
@@ -356,10 +397,68 @@ def intersections_lattice(ctx):
         on_cube = all(all(-1e-7 <= c <= 2 + 1e-7 for c in x.normalized_array[:3]) and any(abs(c) < 1e-7 or abs(c - 2) < 1e-7 for c in x.normalized_array[:3]) for x in pts)
         ctx.ensure("3d:cuboid-points-on-the-surface", on_cube, witness=w)
         ctx.ensure("3d:cuboid-at-most-two-points", len(pts) <= 2, witness=w)
+        ctx.ensure("3d:cuboid-line-no-duplicates", all(not (pts[i] == pts[j]) for i in range(len(pts)) for j in range(i)), witness=w)
         ts = np.linspace(-5, 6, 221)
         thru = any(all(1e-6 < (1 - t) * p[i] + t * q[i] < 2 - 1e-6 for i in range(3)) for t in ts)
         if thru:
             ctx.ensure("3d:line-through-the-interior-yields-two-points", len(pts) == 2, witness=w)
+    # cuboid x single segment, including segments lying in the plane of a face (dependent faces are masked) and touching edges/vertices
+    slat = lat + [(-1, 1, 0), (3, 1, 0), (0.5, 1, 0), (1.5, 1, 0), (3, 0.5, 0), (1, 1, 2), (0, 0, 1), (0, 3, 1), (2, 2, -1), (2, 2, 3)]
+    slat = list(dict.fromkeys(slat))
+    for p, q in itertools.combinations(slat, 2):
+        w = dict(segment=(p, q))
+        try:
+            pts = cube.intersect(Segment(g.Point(*p), g.Point(*q)))
+        except Exception as e:
+            ctx.ensure("3d:cuboid-segment-no-exception", False, witness=dict(w, exception="%s: %s" % (type(e).__name__, e)))
+            continue
+        ctx.ensure("3d:cuboid-segment-no-exception", True, witness=w)
+        w["got"] = [x.normalized_array.tolist() for x in pts]
+        pa, qa = np.array(p, dtype=float), np.array(q, dtype=float)
+
+        def on_seg(x):
+            v = np.asarray(x.normalized_array[:3], dtype=float)
+            t = np.dot(v - pa, qa - pa) / np.dot(qa - pa, qa - pa)
+            return -1e-7 <= t <= 1 + 1e-7 and np.abs(pa + t * (qa - pa) - v).max() < 1e-6
+
+        on_cube = all(all(-1e-7 <= c <= 2 + 1e-7 for c in x.normalized_array[:3]) and any(abs(c) < 1e-7 or abs(c - 2) < 1e-7 for c in x.normalized_array[:3]) for x in pts)
+        ctx.ensure("3d:cuboid-segment-points-on-the-surface-and-the-segment", on_cube and all(on_seg(x) for x in pts), witness=w)
+        ctx.ensure("3d:cuboid-segment-no-duplicates", all(not (pts[i] == pts[j]) for i in range(len(pts)) for j in range(i)), witness=w)
+        strict_in = lambda v: all(1e-6 < c < 2 - 1e-6 for c in v)
+        strict_out = lambda v: any(c < -1e-6 or c > 2 + 1e-6 for c in v)
+        thru = any(strict_in(pa + t * (qa - pa)) for t in np.linspace(0, 1, 201))
+        if strict_in(pa) and strict_in(qa):
+            ctx.ensure("3d:cuboid-segment-inside-yields-nothing", len(pts) == 0, witness=w)
+        elif thru and strict_out(pa) and strict_out(qa):
+            ctx.ensure("3d:cuboid-segment-through-the-interior-yields-two-points", len(pts) == 2, witness=w)
+        elif thru and (strict_in(pa) != strict_in(qa)) and (strict_out(pa) or strict_out(qa)):
+            ctx.ensure("3d:cuboid-segment-leaving-the-interior-yields-one-point", len(pts) == 1, witness=w)
+    # PolygonCollection x SegmentCollection, element by element: piercing, in-plane (dependent pair, masked), stopping short, missing
+    from geometer.shapes import PolygonCollection, SegmentCollection
+    sqz = lambda z: [[0, 0, z, 1], [2, 0, z, 1], [2, 2, z, 1], [0, 2, z, 1]]
+    kinds = {"pierce": lambda z: ([1, 1, z - 1, 1], [1, 1, z + 1, 1], [(1, 1, z)]), "inplane": lambda z: ([-1, 1, z, 1], [3, 1, z, 1], []),
+             "short": lambda z: ([1, 1, z - 2, 1], [1, 1, z - 0.5, 1], []), "miss": lambda z: ([3, 3, z - 1, 1], [3, 3, z + 1, 1], []),
+             "touch": lambda z: ([0.5, 1.5, z, 1], [0.5, 1.5, z + 2, 1], [(0.5, 1.5, z)])}
+    for combo in itertools.product(sorted(kinds), repeat=3):
+        zs = (1, 2, 3)
+        segs, want = [], []
+        for kname, z in zip(combo, zs):
+            a, b, wpts = kinds[kname](z)
+            segs.append([a, b])
+            want += wpts
+        PC = PolygonCollection(np.array([sqz(z) for z in zs], dtype=float))
+        SC = SegmentCollection(np.array(segs, dtype=float))
+        for order in ("polygons.intersect(segments)", "segments.intersect(polygons)"):
+            w = dict(kinds=combo, call=order)
+            try:
+                res = PC.intersect(SC) if order.startswith("polygons") else SC.intersect(PC)
+                got = sorted(tuple(round(float(c), 6) + 0.0 for c in x.normalized_array[:3]) for r in res for x in (r if r.free_indices > 0 else [r]))
+                ok = got == sorted(tuple(float(c) for c in pnt) for pnt in want)
+                w["got"], w["want"] = got, want
+            except Exception as e:
+                ok = False
+                w["exception"] = "%s: %s" % (type(e).__name__, e)
+            ctx.ensure("3d:polygon-collection-x-segment-collection-elementwise", ok, witness=w)
     sq = Polygon(g.Point(0, 0, 1), g.Point(2, 0, 1), g.Point(2, 2, 1), g.Point(0, 2, 1))
     for (p, q, want) in [((1, 1, 0), (1, 1, 2), 1), ((3, 3, 0), (3, 3, 2), 0), ((0, 0, 0), (2, 2, 2), 1), ((1, 1, 2), (1, 2, 3), 1), ((5, 5, 0), (6, 5, 0), 0),
                          ((0, 0, 0), (1, 0, 0), 0), ((0.5, 0.5, 0), (0.5, 0.5, 5), 1), ((2, 1, 0), (2, 1, 3), 1)]:
